@@ -157,8 +157,227 @@ def normalise_dispatch(tree: ast.Module) -> list[str]:
     f.visit(tree)
     w = WithConstructorNormaliser(tree)
     w.visit(tree)
+    wl = WorklistNormaliser()
+    wl.visit(tree)
+    bc = BranchCallableNormaliser()
+    bc.visit(tree)
     ast.fix_missing_locations(tree)
-    return t.log + p.log + a.log + f.log + w.log
+    return t.log + p.log + a.log + f.log + w.log + wl.log + bc.log
+
+
+class BranchCallableNormaliser(ast.NodeTransformer):
+    """`if c: f = A  else: f = B` directly followed by the only use
+    `... f(ARGS) ...` is the call written in each branch (`A(ARGS)` /
+    `B(ARGS)`); `functools.partial(g, k=v)(ARGS)` is `g(ARGS, k=v)`."""
+
+    def __init__(self):
+        self.log: list[str] = []
+
+    @staticmethod
+    def _fn_value(v) -> bool:
+        if isinstance(v, (ast.Name, ast.Attribute)):
+            return True
+        return isinstance(v, ast.Call) and ast.unparse(v.func) in (
+            "functools.partial", "partial") and bool(v.args) and isinstance(
+                v.args[0], (ast.Name, ast.Attribute)) and not any(
+                    k.arg is None for k in v.keywords)
+
+    def _branches(self, node: ast.If, name: str):
+        """[(block, index of the assignment)] for every branch, or None."""
+        out = []
+        for blk in (node.body, node.orelse):
+            if not blk:
+                return None
+            if len(blk) == 1 and isinstance(blk[0], ast.If) and blk is \
+                    node.orelse:
+                sub = self._branches(blk[0], name)
+                if sub is None:
+                    return None
+                out += sub
+                continue
+            last = blk[-1]
+            if isinstance(last, ast.Raise):
+                continue
+            tgt = last.targets[0] if isinstance(last, ast.Assign) and len(
+                last.targets) == 1 else getattr(last, "target", None)
+            if not (isinstance(tgt, ast.Name) and tgt.id == name and
+                    getattr(last, "value", None) is not None and
+                    self._fn_value(last.value)):
+                return None
+            out.append((blk, len(blk) - 1))
+        return out or None
+
+    def _block(self, stmts, scope):
+        from sa.model import clone
+        out = list(stmts)
+        i = 0
+        while i + 1 < len(out):
+            s, use = out[i], out[i + 1]
+            if isinstance(s, ast.If) and isinstance(
+                    use, (ast.Assign, ast.AnnAssign, ast.Expr, ast.Return)):
+                calls = [x for x in ast.walk(use) if isinstance(x, ast.Call)
+                         and isinstance(x.func, ast.Name)]
+                for cl in calls:
+                    name = cl.func.id
+                    br = self._branches(s, name)
+                    if br is None:
+                        continue
+                    occ = [x for x in ast.walk(scope) if isinstance(
+                        x, ast.Name) and x.id == name]
+                    n_assign = len(br)
+                    # uses: the branch assignments + this one call (+ a bare
+                    # annotation)
+                    loads = [x for x in occ if isinstance(x.ctx, ast.Load)]
+                    if len(loads) != 1 or loads[0] is not cl.func:
+                        continue
+                    stores = [x for x in occ if isinstance(x.ctx, ast.Store)]
+                    if len(stores) - n_assign not in (0, 1):
+                        continue
+                    for blk, idx in br:
+                        val = blk[idx].value
+                        new_use = clone(use)
+                        tgt_call = next(
+                            x for x in ast.walk(new_use) if isinstance(
+                                x, ast.Call) and isinstance(
+                                    x.func, ast.Name) and x.func.id == name)
+                        if isinstance(val, ast.Call):      # partial(g, ..)
+                            tgt_call.func = clone(val.args[0])
+                            tgt_call.args = [clone(a) for a in val.args[1:]] \
+                                + tgt_call.args
+                            tgt_call.keywords = tgt_call.keywords + [
+                                clone(k) for k in val.keywords]
+                        else:
+                            tgt_call.func = clone(val)
+                        ast.copy_location(new_use, blk[idx])
+                        blk[idx] = new_use
+                    del out[i + 1]
+                    self.log.append(f"L{s.lineno}: callable `{name}` chosen "
+                                    "in branches read as the call in each "
+                                    "branch")
+                    break
+            i += 1
+        return out
+
+    def visit_FunctionDef(self, node):
+        self.generic_visit(node)
+        self._scope = node
+
+        def rec(owner):
+            for fld in ("body", "orelse", "finalbody"):
+                blk = getattr(owner, fld, None)
+                if isinstance(blk, list) and blk and isinstance(
+                        blk[0], ast.stmt):
+                    for s in blk:
+                        if not isinstance(s, (ast.FunctionDef,
+                                              ast.AsyncFunctionDef,
+                                              ast.ClassDef)):
+                            rec(s)
+                    setattr(owner, fld, self._block(blk, node))
+            if isinstance(owner, ast.Try):
+                for h in owner.handlers:
+                    rec(h)
+            if isinstance(owner, ast.Match):
+                for cs in owner.cases:
+                    rec(cs)
+
+        rec(node)
+        return node
+
+    visit_AsyncFunctionDef = visit_FunctionDef
+
+
+class WorklistNormaliser(ast.NodeTransformer):
+    """The explicit-stack pre-order walk
+
+        W = [a]                      # a: the function's (last) parameter
+        while W:
+            cur = W.pop()
+            BODY(cur)                # does not mention W
+            W.extend(reversed(E))
+
+    of a generator F is the recursion  BODY(a); for c in E: yield from F(c)
+    (same order: the first child is on top of the stack). Only this exact
+    shape: pop() from the end, extend(reversed(..)) as the last statement."""
+
+    def __init__(self):
+        self.log: list[str] = []
+
+    def visit_FunctionDef(self, node: ast.FunctionDef):
+        self.generic_visit(node)
+        from sa.model import clone
+        body = [s for s in node.body if not (isinstance(s, ast.Expr) and
+                                             isinstance(s.value, ast.Constant))]
+        if len(body) != 2:
+            return node
+        s1, s2 = body
+        t1 = s1.targets[0] if isinstance(s1, ast.Assign) and len(
+            s1.targets) == 1 else getattr(s1, "target", None)
+        v1 = getattr(s1, "value", None)
+        params = [a.arg for a in node.args.args]
+        if not (isinstance(t1, ast.Name) and isinstance(v1, ast.List) and len(
+                v1.elts) == 1 and isinstance(v1.elts[0], ast.Name) and
+                v1.elts[0].id in params and isinstance(s2, ast.While) and
+                isinstance(s2.test, ast.Name) and s2.test.id == t1.id and
+                not s2.orelse and len(s2.body) >= 2):
+            return node
+        w, a = t1.id, v1.elts[0].id
+        first, last = s2.body[0], s2.body[-1]
+        tf = first.targets[0] if isinstance(first, ast.Assign) and len(
+            first.targets) == 1 else getattr(first, "target", None)
+        vf = getattr(first, "value", None)
+        if not (isinstance(tf, ast.Name) and isinstance(vf, ast.Call) and
+                isinstance(vf.func, ast.Attribute) and vf.func.attr == "pop" and
+                not vf.args and isinstance(vf.func.value, ast.Name) and
+                vf.func.value.id == w):
+            return node
+        cur = tf.id
+        ok_last = isinstance(last, ast.Expr) and isinstance(
+            last.value, ast.Call) and isinstance(
+                last.value.func, ast.Attribute) and \
+            last.value.func.attr == "extend" and isinstance(
+                last.value.func.value, ast.Name) and \
+            last.value.func.value.id == w and len(last.value.args) == 1 and \
+            isinstance(last.value.args[0], ast.Call) and isinstance(
+                last.value.args[0].func, ast.Name) and \
+            last.value.args[0].func.id == "reversed" and len(
+                last.value.args[0].args) == 1
+        middle = s2.body[1:-1]
+        if not ok_last or any(isinstance(x, ast.Name) and x.id == w
+                              for s in middle for x in ast.walk(s)) or any(
+                isinstance(x, (ast.Break, ast.Continue, ast.Return))
+                for s in middle for x in ast.walk(s)):
+            return node
+        children = last.value.args[0].args[0]
+
+        class _R(ast.NodeTransformer):
+
+            def visit_Name(self, n):
+                if n.id == cur:
+                    return ast.copy_location(ast.Name(id=a, ctx=n.ctx), n)
+                return n
+
+        new_body = [_R().visit(clone(s)) for s in middle]
+        is_method = params[:1] == ["self"]
+        callee = ast.Attribute(value=ast.Name(id="self", ctx=ast.Load()),
+                               attr=node.name, ctx=ast.Load()) if is_method \
+            else ast.Name(id=node.name, ctx=ast.Load())
+        child = f"{cur}__child"
+        loop = ast.For(
+            target=ast.Name(id=child, ctx=ast.Store()),
+            iter=_R().visit(clone(children)),
+            body=[ast.Expr(value=ast.YieldFrom(value=ast.Call(
+                func=callee, args=[ast.Name(id=child, ctx=ast.Load())],
+                keywords=[])))],
+            orelse=[])
+        doc = [s for s in node.body if isinstance(s, ast.Expr) and isinstance(
+            s.value, ast.Constant)][:1]
+        node.body = doc + new_body + [loop]
+        for s in node.body:
+            ast.copy_location(s, s2) if not hasattr(s, "lineno") else None
+        ast.fix_missing_locations(node)
+        self.log.append(f"{node.name}: explicit-stack pre-order walk read as "
+                        "the recursion")
+        return node
 
 
 class WithConstructorNormaliser(ast.NodeTransformer):
@@ -637,7 +856,19 @@ class AliasInliner(ast.NodeTransformer):
                     else [x.target])) and x is not st]
             uses = [x for x in ast.walk(node) if isinstance(x, ast.Name) and
                     x.id == t.id and isinstance(x.ctx, ast.Load)]
-            if rebinds and uses and max(u.lineno for u in uses) >= min(rebinds):
+            # rebinds that can run between the alias and a use: textually
+            # after the alias, or anywhere inside a loop that contains it
+            loops_ = [lp for lp in ast.walk(node) if isinstance(
+                lp, (ast.For, ast.While, ast.AsyncFor)) and any(
+                    x is st for x in ast.walk(lp))]
+            in_loop_lines = {x.lineno for lp in loops_ for x in ast.walk(lp)
+                             if hasattr(x, "lineno")}
+            live_rebinds = [ln for ln in rebinds
+                            if ln >= st.lineno or ln in in_loop_lines]
+            if live_rebinds and uses and max(
+                    u.lineno for u in uses) >= min(live_rebinds):
+                continue
+            if live_rebinds and loops_:
                 continue
             aliases[t.id] = (v, st)
         if not aliases:
